@@ -225,10 +225,7 @@ func TestC06(t *testing.T) {
 	t.Run("corners", func(t *testing.T) {
 		idx := 0
 		var n int64
-		zs := []int{1}
-		if run.Thorough() {
-			zs = []int{1, 2}
-		}
+		zs := []int{1, 2}
 		reps := run.Pick(1, 4)
 		for rep := 0; rep < reps; rep++ {
 			for _, f := range scen.CornerFields {
@@ -239,6 +236,9 @@ func TestC06(t *testing.T) {
 					}
 					if z == 2 && (f == "rsa_ciphertext") && rep > 0 {
 						continue // 65536 RSA operations per search: once is enough
+					}
+					if z == 2 && !run.Thorough() && f != "g_a" && f != "g_b" && f != "g_ab" {
+						continue // quick tier: two zero bytes for the group elements only (found by walking the exponent: cheap)
 					}
 					src := &detSource{seed: run.Seed*977 + uint64(idx)}
 					sc, err := scen.BuildHandshake(src, keys, scen.Corner{Field: f, Zeros: z}, true)
